@@ -479,3 +479,34 @@ func TestC11Robustness(t *testing.T) { h.Run(t, "C11", "requests", genC11, judge
 
 var _ = fmt.Sprint
 var _ = sort.Strings
+
+// Volume: the well-formed requests of a history in which counts cross thresholds (hundreds of sessions open at once
+// for one subscriber, more than 65536 requests served by the process): none panics, none is answered 5xx, none blocks.
+func judgeC11Volume(hst Hist) *h.Verdict {
+	v := &h.Verdict{}
+	w := NewWorld(hst)
+	for step, op := range hst.Ops {
+		res := w.Exec(op)
+		if res.Skipped {
+			continue
+		}
+		if timedOut(res) {
+			v.Skipped = true
+			return v
+		}
+		if len(res.Panics) > 0 {
+			return v.Failf("handler-panic/"+op.K+"/"+h.PanicFrame(res.Panics[0]), "step %d: handler panicked: %.2000s", step, res.Panics[0])
+		}
+		if res.Status == statusHung {
+			return v.Failf("request-hangs/volume/"+op.K, "step %d of %d (%s, subscriber %d): %s", step, len(hst.Ops), op.K, op.S, res.Body)
+		}
+		if res.Status >= 500 {
+			return v.Failf("5xx/volume/"+op.K, "step %d of %d: well-formed %s answered %d %.300s", step, len(hst.Ops), op.K, res.Status, res.Body)
+		}
+	}
+	return v
+}
+
+func TestC11Volume(t *testing.T) {
+	h.Run(t, "C11", "volume", func(t *rapid.T) Hist { return genVolumeHist(t, true) }, volumeOf(judgeC11Volume, true))
+}
